@@ -1069,7 +1069,17 @@ def _fresh_twins(plan, scratch, log, stats, violation):
     env["PYTHONHASHSEED"] = str(1 + (steps[0]["eB"] % 4000))
     code = ("import sys, json; sys.path.insert(0, %r); from engines import twinsim; "
             "print('FRESH ' + json.dumps(twinsim.fresh_main(json.loads(sys.stdin.read()))))" % here)
-    p = subprocess.run([sys.executable, "-c", code], input=json.dumps(steps), capture_output=True, text=True, env=env, timeout=900)
+    def die_with_parent():  # a worker killed by its run timeout must not leave this interpreter behind
+        import ctypes
+        import signal
+
+        ctypes.CDLL("libc.so.6", use_errno=True).prctl(1, signal.SIGKILL)
+
+    try:
+        p = subprocess.run([sys.executable, "-c", code], input=json.dumps(steps), capture_output=True, text=True, env=env,
+                           timeout=600, preexec_fn=die_with_parent)
+    except subprocess.TimeoutExpired:
+        raise pipe.HarnessError("fresh-interpreter twin did not finish within 600 s")
     got = None
     for line in p.stdout.splitlines():
         if line.startswith("FRESH "):
